@@ -13,7 +13,7 @@ def check(pid, category, text, note, technique, design):
 
 check("C01", "exploration",
       "Bounded exhaustive exploration of (operation, payload) pairs: every operation of the edit space (ordered item "
-      "sequences at 12 focus hosts over a schema that contains each construct the generator distinguishes) is really "
+      "sequences at 12 focus hosts over a schema that contains each construct the generator distinguishes, plus the covering operations of the C07 schema feature lattice) is really "
       "generated, compiled with rustc and run with serde_json; every conforming payload vector (full product, or all "
       "vectors within deviation bound 2 of the default) must deserialise and re-serialise to the same normal form. "
       "Exhaustive within the stated bounds, silent about operations and payload values outside them.",
@@ -77,7 +77,7 @@ check("C16", "exploration",
       "Full product of the ID value alphabet x both helper functions x four deserialiser paths on the real serde_with "
       "module; every ID type expression of list depth <= 2 (thorough 3) x four placements generated, inspected at token "
       "level (helper on exactly the ID fields), compiled and fed string / integer / null / wrong-kind / absent vectors.",
-      "Trusted: rustc and serde as semantics of the generated code. Known finding: ID under a list does not compile.",
+      "Trusted: rustc and serde as semantics of the generated code. Also run from an SDL that spells out `scalar ID`.",
       "exhaustive enumeration of value alphabet x deserialiser paths, and of type expressions x placements on compiled generated code",
       "DESIGN.md 4 C16")
 
@@ -155,7 +155,7 @@ check("C09", "exploration",
 check("C10", "exploration",
       "On compiled generated code: enum definitions over a naming alphabet (case styles, all keywords, Other-lookalikes; "
       "singles, pairs, mixed sets) x normalization x three positions (response field, variable, input field) x a string "
-      "alphabet (schema values, near-misses, empty, blank, non-ASCII, long) and non-string values. Every string must "
+      "alphabet (schema values, near-misses, empty, blank, non-ASCII, long) and non-string values, with two sibling enums in every module. Every string must "
       "deserialise and serialise back to itself; schema values get distinct non-catch-all variants.",
       "Trusted: Debug output of the generated enum to tell variants apart.",
       "bounded exhaustive enumeration of enum definitions x strings on compiled generated code",
@@ -163,7 +163,7 @@ check("C10", "exploration",
 
 check("C11", "exploration",
       "Finite space enumerated completely: 54 keywords (strict, reserved, weak; editions 2015-2024), 14 case styles, 10 "
-      "controls x 6 name positions; one generated module per (name, position), compiled and run; the wire key / string must "
+      "controls x 8 name positions (incl. ID-typed fields and aliases of optional IDs), plus every keyword in other case styles at the positions that snake_case it; one generated module per (name, position), compiled and run; the wire key / string must "
       "be exactly the GraphQL name.",
       "Trusted: rustc (edition 2021) and serde.",
       "exhaustive enumeration of names x positions on compiled generated code",
@@ -181,7 +181,7 @@ check("C02", "exploration",
       "DESIGN.md 4 C02")
 
 check("C19", "fault_enumeration",
-      "Every setting of 12 flag dimensions of the real `graphql-client generate` binary within the deviation bound of the "
+      "Every setting of 13 dimensions (12 flags + a pre-existing, longer destination file) of the real `graphql-client generate` binary within the deviation bound of the "
       "default invocation (quick 3, thorough 4), two query file names, output placement, formatting; the written file must "
       "be the header plus exactly the library's token stream for the options the flag table prescribes, at "
       "<out or query dir>/<stem>.rs, with nothing else in the tree changed. Failure clause: instances of every invalidating "
